@@ -320,11 +320,19 @@ def run(key, prop, tier, seed, binary, wd):
             if m.get("undetermined"):
                 undet += 1
                 continue
-            groups.setdefault((re.sub(r"_at_age_\d+|_age_\d+", "", m["field"]), str(m["exp"]), str(m["obs"])), []).append(m)
+            rw = m["row"] if not isinstance(m["row"], str) else json.loads(m["row"])
+            gk = (re.sub(r"_at_age_\d+|_age_\d+", "", m["field"]), str(m["exp"]), str(m["obs"]))
+            if kind == "c11":
+                gk = (m["field"], json.dumps(rw.get("req"), sort_keys=True), "")
+            elif kind in ("c14", "c06hmac") and m["field"] in ("at_hash", "c_hash", "state_unchanged_after_refusal"):
+                gk = (m["field"], rw.get("key", rw.get("mut", "")), rw.get("flow", rw.get("kind", "")))
+            groups.setdefault(gk, []).append(m)
         for key, lst in sorted(groups.items()):
             m = lst[0]
             row = m["row"] if not isinstance(m["row"], str) else json.loads(m["row"])
             fp = f"{kind}/{key[0]}/{key[1]}/{key[2]}"
+            if kind == "c11":       # the observed Location contains fresh random credentials: group by the requested URI
+                fp = f"{kind}/{key[0]}/" + "".join(str(row["req"].get(k, "")) for k in ("scheme", "userinfo", "host", "port", "path", "query", "fragment"))
             kf = [f for f in findings if re.fullmatch(f["fingerprint"], fp)]
             if kf:
                 if kf[0]["id"] not in known:
